@@ -43,7 +43,9 @@ class Generated:
         self.fn_keys = []
         self.missing = []
         self.probed = []
-        self.uncontracted = []     # kept functions (verified with their bodies) that carry no contract      # contracted functions that no longer exist: (file, key, props)
+        self.uncontracted = []
+        self.binding_seqs = {}     # fn key -> names bound, in order (rule 27)
+        self.renamed = {}          # fn key -> {actual: pinned} alpha-renaming applied     # kept functions (verified with their bodies) that carry no contract      # contracted functions that no longer exist: (file, key, props)
     def text(self):
         return '\n'.join(self.lines) + '\n'
 
@@ -90,6 +92,23 @@ def generate(unit, repo_src=None, modes=None, probe=False):
             f = File(os.path.join(repo_src, sf.name), src=sf.pre(open(os.path.join(repo_src, sf.name)).read(), c))
         else:
             f = File(os.path.join(repo_src, sf.name))
+        # rule 27: alpha-rename pure renames back to the pinned names (before anything else looks at the text)
+        if sf.loader is None and sf.fns:
+            from . import locals as _loc
+            pinned_locals = _loc.load().get(unit.name, {})
+            red = Edits(f.src); nren = 0
+            for key_, spec_ in sf.fns.items():
+                fn_ = f.fns.get(key_)
+                if fn_ is None or spec_.trust or modes.get(key_) == 'external': continue
+                exp_ = pinned_locals.get(key_)
+                if not exp_: continue
+                m_ = _loc.plan(f, fn_, exp_)
+                if m_:
+                    nren += _loc.apply(f, fn_, m_, red); g.renamed[key_] = m_
+            if nren:
+                newsrc, _org = red.apply()
+                f = File(f.path, src=newsrc, name=f.name)
+                c['rule27_alpha_rename'] = c.get('rule27_alpha_rename', 0) + len(g.renamed)
         ed = Edits(f.src)
         t = f.toks
         keep_ranges = []
@@ -169,6 +188,9 @@ def generate(unit, repo_src=None, modes=None, probe=False):
                     g.trusted.append('trusted body (pinned text %s): %s' % (h, key))
             g.fn_keys.append(key)
             if spec is None: g.uncontracted.append(key)
+            elif sf.loader is None:
+                from . import locals as _loc2
+                g.binding_seqs[key] = _loc2.binding_seq(f, fn)
         missing = [k for k in sf.fns if k not in f.fns]
         for k_ in missing:
             g.missing.append((sf.name, k_, list(sf.fns[k_].props) or list(sf.props)))
